@@ -45,9 +45,14 @@ pub fn run(args: &Args) -> Report {
             for require in [false, true] {
                 for cred_props in [None, Some(false), Some(true)] {
                   for (counters, prf) in [(false, false), (true, false), (false, true), (true, true)] {
-                   for (uid, selection_absent) in [(0usize, false), (1, false), (2, false), (0, true)] {
+                   for (uid, selection_absent, unknown_rk_text) in [(0usize, false, false), (1, false, false), (2, false, false), (0, true, false), (0, false, true)] {
                     // the whole authenticatorSelection member absent: only meaningful where it says nothing
                     if selection_absent && (rk_req.is_some() || require) {
+                        continue;
+                    }
+                    // the request arrives as JSON whose residentKey is a string this version does not know:
+                    // it is ignored as if absent, so requireResidentKey decides
+                    if unknown_rk_text && rk_req.is_some() {
                         continue;
                     }
                     let user_id: Vec<u8> = match uid {
@@ -60,7 +65,7 @@ pub fn run(args: &Args) -> Report {
                         continue;
                     }
                     rep.eval();
-                    let case = json!({"index": index, "level": "client", "capability": format!("{disc:?}"), "residentKey": rk_req.map(|r| format!("{r:?}")), "requireResidentKey": require, "credProps": cred_props, "signature_counters": counters, "prf_requested_and_configured": prf, "user_id_len": user_id.len(), "authenticatorSelection_absent": selection_absent});
+                    let case = json!({"index": index, "level": "client", "capability": format!("{disc:?}"), "residentKey": rk_req.map(|r| format!("{r:?}")), "requireResidentKey": require, "credProps": cred_props, "signature_counters": counters, "prf_requested_and_configured": prf, "user_id_len": user_id.len(), "authenticatorSelection_absent": selection_absent, "residentKey_is_an_unknown_string_in_json": unknown_rk_text});
                     rep.nontrivial(fnv_str(&case.to_string()));
                     let want_rk = map_rk(rk_req, require, supports_rk);
                     let refused = want_rk && !supports_rk;
@@ -77,6 +82,22 @@ pub fn run(args: &Args) -> Report {
                         });
                         if selection_absent {
                             opts.public_key.authenticator_selection = None;
+                        }
+                        if unknown_rk_text {
+                            let mut v = serde_json::to_value(&opts).expect("options serialise");
+                            v["publicKey"]["authenticatorSelection"]["residentKey"] = json!("a-value-from-the-future");
+                            fn drop_nulls(v: &mut serde_json::Value) {
+                                match v {
+                                    serde_json::Value::Object(m) => {
+                                        m.retain(|_, x| !x.is_null());
+                                        m.values_mut().for_each(drop_nulls);
+                                    }
+                                    serde_json::Value::Array(a) => a.iter_mut().for_each(drop_nulls),
+                                    _ => {}
+                                }
+                            }
+                            drop_nulls(&mut v);
+                            opts = serde_json::from_value(v).expect("options with an unknown residentKey string parse");
                         }
                         if cred_props.is_some() || prf {
                             opts.public_key.extensions = Some(AuthenticationExtensionsClientInputs {
@@ -146,6 +167,12 @@ pub fn run(args: &Args) -> Report {
                                     if cred_props == Some(true) {
                                         if cp.and_then(|p| p.discoverable) != Some(s.user_handle.is_some()) {
                                             rep.violate("client: credProps.rk does not equal whether the stored credential is discoverable", format!("credProps {:?}, stored discoverable {}", cp.map(|p| p.discoverable), s.user_handle.is_some()), case.clone());
+                                        }
+                                        // ... and in the response as the relying party receives it (serialised)
+                                        let wire = serde_json::to_value(&c).ok();
+                                        let wire_rk = wire.as_ref().and_then(|w| w["clientExtensionResults"]["credProps"]["rk"].as_bool());
+                                        if wire_rk != Some(s.user_handle.is_some()) {
+                                            rep.violate("client: credProps.rk in the serialised response does not equal whether the stored credential is discoverable", format!("serialised {:?}, stored discoverable {}", wire.as_ref().map(|w| w["clientExtensionResults"]["credProps"].to_string()), s.user_handle.is_some()), case.clone());
                                         }
                                         rep.count("credprops_checked");
                                     } else if cp.is_some() {
